@@ -28,6 +28,9 @@ type Uni struct {
 	ObsA   []Obs   `json:"obsA"`
 	ObsB   []Obs   `json:"obsB"`
 	InitOK bool    `json:"initok"`
+	// ObsSwitch: the B blocks observed on ONE node (one module instance, one database) that first applied common+A and then
+	// reverted the A blocks with their stored diffs — a chain switch. Must equal the tail of ObsB (fresh node).
+	ObsSwitch []Obs `json:"obsSwitch"`
 }
 
 func runUni(u *Uni) {
@@ -36,6 +39,30 @@ func runUni(u *Uni) {
 	RunCase(&ca)
 	RunCase(&cb)
 	u.ObsA, u.ObsB, u.InitOK = ca.Obs, cb.Obs, ca.InitOK
+	u.ObsSwitch = []Obs{}
+	if !ca.InitOK || len(ca.Obs) != len(ca.Blocks) || (len(ca.Obs) > 0 && ca.Obs[len(ca.Obs)-1].Err != 0) {
+		return
+	}
+	n, ok := NewNode(&ca)
+	defer n.Close()
+	if !ok {
+		return
+	}
+	for _, b := range ca.Blocks {
+		if o := n.Apply(b); o.Err != 0 {
+			return
+		}
+	}
+	for range u.A {
+		n.RevertLast()
+	}
+	for _, b := range u.B {
+		o := n.Apply(b)
+		u.ObsSwitch = append(u.ObsSwitch, o)
+		if o.Err != 0 {
+			return
+		}
+	}
 }
 
 type hd struct{ h, gen, mhg, mhp uint32 }
@@ -76,6 +103,8 @@ func gen(r *hx.Rng) Uni {
 			bw += v.W
 		}
 	}
+	certs := r.Intn(3) == 0
+	prefixChange := r.Intn(3) == 0
 	signed := map[uint32][]hd{}
 	maxForged := map[uint32]uint32{}
 	cur := append([]Val{}, vs...)
@@ -133,6 +162,22 @@ func gen(r *hx.Rng) Uni {
 				}
 			}
 			b := Block{H: h, Gen: v, MHG: x.mhg, MHP: mhp}
+			if certs && h > 3 && r.Intn(3) == 0 {
+				ch := uint32(1 + r.Intn(int(h)-2)) // the module takes the certified height from the header (checked elsewhere: C06)
+				b.Cert = &ch
+			}
+			if !allowChange && prefixChange && r.Intn(6) == 0 {
+				// weight change (same validators) inside the common prefix: both branches see it
+				nv := []Val{}
+				for _, ov := range cur {
+					nv = append(nv, Val{A: ov.A, W: uint64(1 + r.Intn(9))})
+				}
+				nW := uint64(0)
+				for _, ov := range nv {
+					nW += ov.W
+				}
+				b.Chg = &Change{PC: nW*2/3 + 1, Cert: nW*2/3 + 1, Vals: nv, Standby: []uint32{}}
+			}
 			if allowChange && r.Intn(12) == 0 {
 				// validator-set change announced on this branch only
 				nv := []Val{}
@@ -149,6 +194,9 @@ func gen(r *hx.Rng) Uni {
 				continue
 			}
 			*branch = append(*branch, b)
+			if b.Chg != nil && !allowChange {
+				cur = append([]Val{}, b.Chg.Vals...)
+			}
 			signed[v] = append(signed[v], x)
 			if maxForged[v] < h {
 				maxForged[v] = h
@@ -157,6 +205,9 @@ func gen(r *hx.Rng) Uni {
 		}
 	}
 	ncommon := r.Intn(2 * batch)
+	if certs || prefixChange {
+		ncommon = batch + r.Intn(4*batch) // long enough for pruning to matter
+	}
 	for i := 0; i < ncommon; i++ {
 		extend(nil, &u.Common, false)
 	}
